@@ -69,6 +69,10 @@ pub(crate) fn impl_cbrt_uint_scale(
     }
 
     let result_digits = integer_digits.nth_root(3);
+    // the floor root is exact only if its cube gives the radicand back; otherwise non-zero digits
+    // of the true root follow below the ones we have, and the rounding must know about them
+    let root_cubed = &result_digits * &result_digits * &result_digits;
+    let root_is_exact = root_cubed.cmp(&integer_digits) == Ordering::Equal;
     let result_digits_count = count_decimal_digits_uint(&result_digits);
     debug_assert!(result_digits_count > precision.get());
 
@@ -95,7 +99,7 @@ pub(crate) fn impl_cbrt_uint_scale(
     }
 
     let insig_data = rounding::InsigData::from_digit_and_lazy_trailing_zeros(
-        rounding_data, insig_digit0, || { trailing_digits.iter().all(Zero::is_zero) }
+        rounding_data, insig_digit0, || { root_is_exact && trailing_digits.iter().all(Zero::is_zero) }
     );
 
     // lowest digit to round
